@@ -117,6 +117,10 @@ pub fn f64_matches(got: f64, want: f64, q: Q) -> bool {
             if !(got >= -1.0 - 1e-9) || !got.is_finite() {
                 return false;
             }
+            if x > 1e300 {
+                // w*e^w itself may round to infinity next to f64::MAX: the same identity in logarithms
+                return (got + got.ln() - x.ln()).abs() <= 1e-9;
+            }
             let lhs = got * got.exp();
             (lhs - x).abs() <= 1e-9 * x.abs().max(1e-300) || (x == 0.0 && lhs.abs() < 1e-300)
         }
